@@ -23,6 +23,15 @@ from mc import par, pipeline
 ID = "C35"
 LEVEL = "exploration"
 
+EXTRA_TESTS = {
+    "floats": [
+        ["var_0 = 0.1 + 0.2", "var_1 = M_.near(var_0)"],
+        ["var_0 = 1.0000000000000002", "var_1 = M_.near(var_0)"],
+        ["var_0 = 5e-324", "var_1 = M_.truthy(var_0)"],
+        ["var_0 = 0.3", "var_1 = M_.near(var_0)"],
+    ],
+}
+
 
 def shard(col, module, pool_size, pop_bound):
     import datetime
@@ -44,7 +53,12 @@ def shard(col, module, pool_size, pop_bound):
         props = pipe.sut.props
         tests, _ = pipe.population(bound=pop_bound)
         pool, seen = [], set()
-        for t in tests:
+        # hand-made test cases first: values that miss a float predicate by a hair (branch distance of the
+        # outcome NOT taken is tiny but positive), which the factory's value menus do not produce
+        from mc import pyn
+        alias = pipe.sut.name + "_"
+        extra = [pyn.test_case(*[ln.replace("M_", alias) for ln in lines]) for lines in EXTRA_TESTS.get(module, ())]
+        for t in extra + tests:
             chrom = pipe.world.chromosome(t.clone())
             res = pipe.executor.execute(chrom.test_case)
             chrom.set_last_execution_result(res)
@@ -175,8 +189,8 @@ def shard(col, module, pool_size, pop_bound):
 
 
 def run(ctx):
-    modules = ["numeric", "containers", "shapes", "lambdas"] if ctx.quick else \
-        ["numeric", "containers", "shapes", "strings", "raising", "lambdas"]
+    modules = ["numeric", "containers", "shapes", "lambdas", "floats"] if ctx.quick else \
+        ["numeric", "containers", "shapes", "strings", "raising", "lambdas", "floats"]
     k = 6 if ctx.quick else 9
     par.run_shards("props.c35_report:shard", [(m, k, 1 if ctx.quick else 2) for m in modules],
                    ctx.workers, ctx)
